@@ -23,7 +23,7 @@ def cpu():
 
 def run(rep):
     # 1a. the protocol model: invariants over all histories <= 6
-    res = tlc.run(rep.pid, "LastIndex", MODEL_CFG, timeout=1200, tag="model", coverage=True)
+    res = tlc.run(rep.pid, "LastIndex", MODEL_CFG, timeout=1200, tag="model", workers=8)
     rep.add_tlc("LastIndex(model, histories<=6)", res)
     if res.distinct < 10000:
         raise Machinery("LastIndex model explored only %d states" % res.distinct)
